@@ -57,6 +57,11 @@ CLAIMED = {
    note="Trusted: Lean kernel; Spec/DmaSpec.lean; memory returns data in command order. CSR front-end not modelled.",
    technique="Lean 4 proof (reservation invariant) + cycle-exact co-simulation + Lean stream monitors",
    design="§6 C12"),
+ "C18": dict(
+   text="Lean models of the DFI injector (combinational multiplexer + phase injectors) and of the rate converter (Serializer/Deserializer on two aligned clocks), co-simulated cycle-exactly against the real DFIInjector and DFIRateConverter; theorems: hardware mode is transparent in both directions and software mode isolates the controller (all values), serializer emits the latched word slot by slot, one slow cycle later; the converter's specification (Spec/RateSpec: command latency and phase order, write/read data windows) is evaluated on the implementation.",
+   note="Trusted: Lean kernel; Spec/RateSpec.lean; CSR shims; aligned clocks; vendor serialisers out of scope.",
+   technique="Lean 4 proof (mux equalities, serializer induction) + co-simulation (1 and 2 clocks) + Lean specification monitor",
+   design="§6 C18"),
  "C06": dict(
    text="Lean theorems over the parametric address-map model for every geometry satisfying WF: left and right inverse (injective, onto), A10 never a column bit, row part, consecutive walk; model tied to the real crossbar routing and _AddressSlicer by exhaustive (small geometries) and dense evaluation in Migen's simulator.",
    note="Trusted: Lean kernel, Spec (Loc/addrOf/encodeCol in Props/C06.lean), correspondence harness; the steerer's rank/bank split is replicated in the harness and re-observed end-to-end by C01/C02 whole-core runs.",
